@@ -1103,4 +1103,39 @@ theorem parse_declaration (dc : Dcl) (hwf : WFDcl dc) (hty : ∀ x ∈ dc.names,
   show pDeclaration (run G) s = _
   simp [pDeclaration, DeclSkel.bnd, h1, h2, DeclSkel.pur]
 
+theorem Dcl.flat_length (dc : Dcl) : dc.flat.length = dc.ntoks := by
+  have h1 := dc.first.flat_length
+  have h2 : ∀ l : List IDc, (restFlat l).length = restNtoks l := by
+    intro l
+    induction l with
+    | nil => rfl
+    | cons it r ih => simp [restFlat, restNtoks, ih, it.flat_length]; omega
+  simp [Dcl.flat, Dcl.body, Dcl.ntoks, h1, h2]; omega
+
+/-- the first token of a declaration is a specifier -/
+theorem Dcl.head {dc : Dcl} (hwf : WFDcl dc) : ∃ t r, dc.flat = t :: r ∧ t.1 ∈ declStart ∧ t.1 ≠ "ELSE" ∧ t.1 ≠ "RBRACE" := by
+  cases hsp : dc.specs with
+  | nil => exact absurd hsp (sawAfter_ne_nil hwf.sawType)
+  | cons t r =>
+    have h := hwf.specToks
+    rw [hsp] at h
+    obtain ⟨hk, _⟩ := h
+    refine ⟨t, r ++ (dc.first.flat ++ restFlat dc.more) ++ [("SEMI", ";")], by simp [Dcl.flat, Dcl.body, hsp], ?_⟩
+    rcases hk with h | h | h | h | h
+    · revert h; generalize t.1 = k; revert k; decide
+    · revert h; generalize t.1 = k; revert k; decide
+    · revert h; generalize t.1 = k; revert k; decide
+    · revert h; generalize t.1 = k; revert k; decide
+    · rw [h.1]; decide
+
+/-- every value of a declaration is a `Decl` node -/
+theorem Dcl.vals_decl (dc : Dcl) (n : Nat) : ∀ v ∈ dc.vals n, ∃ co fs, v = .node .Decl co fs := by
+  intro v hv
+  unfold Dcl.vals at hv
+  split at hv
+  · cases hv
+  · simp only [List.mem_map] at hv
+    obtain ⟨d, _, rfl⟩ := hv
+    exact ⟨_, _, rfl⟩
+
 end PycModel.DeclParse
